@@ -22,6 +22,8 @@ ASSUMPTIONS = ['for a missing (None) body or arguments object any of the documen
                '(None, [], \'\') is accepted as the value handed to the parent']
 NSHARDS = 16
 EMPTY = '<EMPTY>'
+from ..alphabets import SIG_SMALL, EVERYTYPE_TOKENS      # noqa: E402
+ALPHA_EVERY = SIG_SMALL + EVERYTYPE_TOKENS + ['!', '++']
 CALLBACK = {'chars': 'visit_chars_node', 'group': 'visit_group_node',
             'comment': 'visit_comment_node', 'macro': 'visit_macro_node',
             'environment': 'visit_environment_node', 'specials': 'visit_specials_node',
@@ -163,10 +165,15 @@ def check_tree(s, nl, res, case, mode='tok'):
     exp.node(nl)
     vis = make_visitor(mode)
     try:
-        vis.start(nl)
+        started = vis.start(nl)
     except Exception as e:
         res.fail(exc_key(e), exc_detail(e), case)
         return exp
+    if vis.log and exp.log and len(vis.log) == len(exp.log):
+        root_value = result_value(mode, len(exp.log))
+        if not same_value(started, root_value):
+            res.fail('c19:start-return-value', 'start() returned %r, the root callback returned %r'
+                     % (started, root_value), case)
     got, want = vis.log, exp.log
     if mode == 'generic':
         want = [('visit', w[1], w[2]) for w in want]
@@ -203,6 +210,48 @@ def check_tree(s, nl, res, case, mode='tok'):
     return exp
 
 
+def make_unknown_node(like):
+    from pylatexenc.latexnodes.nodes import LatexNode
+
+    class PvForeignNode(LatexNode):
+        pass
+    n = PvForeignNode(_fields=(), parsing_state=getattr(like, 'parsing_state', None),
+                      latex_walker=getattr(like, 'latex_walker', None),
+                      pos=getattr(like, 'pos', None), pos_end=getattr(like, 'pos', None))
+    return n
+
+
+def surgery(nl, salt):
+    """turn a parsed tree into shapes parsing rarely or never produces but a tree may have (the
+    node classes document them): body None, arguments object None, argument list None, a node of
+    a class the visitor has no dedicated callback for.  Deterministic in (tree, salt)."""
+    from ..treedump import walk
+    done = set()
+    i = salt
+    for n in list(walk(nl)):
+        k = kind(n)
+        if k == 'list':
+            continue
+        i += 1
+        if k in ('group', 'math', 'environment') and i % 5 == 0:
+            n.nodelist = None
+            done.add('body-none')
+        elif k in ('macro', 'environment', 'specials') and i % 5 == 1 and n.nodeargd is not None:
+            n.nodeargd = None
+            done.add('nodeargd-none')
+        elif k in ('macro', 'environment', 'specials') and i % 5 == 2 and n.nodeargd is not None:
+            try:
+                n.nodeargd.argnlist = None
+                done.add('argnlist-none')
+            except Exception:
+                pass
+        elif k in ('group', 'math', 'environment') and i % 5 == 3 and n.nodelist is not None \
+                and hasattr(n.nodelist, 'nodelist'):
+            n.nodelist.nodelist.append(make_unknown_node(n))
+            done.add('unknown-node-kind')
+    return done
+
+
 def classify(exp, res, s, case):
     for cb in set(w[0] for w in exp.log):
         res.label('cb:' + cb)
@@ -218,11 +267,15 @@ def plan(tier, seed):
     shards = [('docs', ndocs // NSHARDS, seed * 1000 + k) for k in range(NSHARDS)]
     shards += [('soup', L, k) for k in range(NSHARDS)]
     shards += [('xsoup', L, k) for k in range(NSHARDS)]
+    shards += [('esoup', L, k) for k in range(NSHARDS)]
     shards += [('rand', nrand // NSHARDS, seed * 1000 + 500 + k) for k in range(NSHARDS)]
     return {'shards': shards, 'bounds': {'documents': ndocs, 'soup_len': L, 'random_soups': nrand},
             'required_classes': ['cb:' + c for c in CALLBACK.values()] +
                                 ['cb:visit_parsed_arguments', 'has-absent-argument-or-body',
-                                 'non-trivial', 'tolerant-tree', 'falsy-results', 'generic-visit-only']}
+                                 'non-trivial', 'tolerant-tree', 'falsy-results', 'generic-visit-only',
+                                 'specials-with-arguments', 'synthetic:body-none',
+                                 'synthetic:nodeargd-none', 'synthetic:argnlist-none',
+                                 'synthetic:unknown-node-kind', 'cb:visit_unknown_node']}
 
 
 def do_source(s, ctxname, tolerant, res, case):
@@ -236,12 +289,30 @@ def do_source(s, ctxname, tolerant, res, case):
         return
     if tolerant:
         res.label('tolerant-tree')
+    if case.get('surgery') is not None:       # replay of a synthetic-shape case
+        surgery(nl, case['surgery'])
+        for mode in ('tok', 'falsy'):
+            check_tree(s, nl, res, case, mode=mode)
+        return
     exp = check_tree(s, nl, res, case)
     classify(exp, res, s, case)
     check_tree(s, nl, res, case, mode='falsy')
     res.label('falsy-results')
     check_tree(s, nl, res, case, mode='generic')
     res.label('generic-visit-only')
+    from ..treedump import walk as _walk
+    if any(kind(n) == 'specials' and n.nodeargd is not None and getattr(n.nodeargd, 'argnlist', None)
+           for n in _walk(nl)):
+        res.label('specials-with-arguments', case)
+    if case.get('surgery') is None and len(exp.log) >= 4:
+        # the same tree after surgery (synthetic shapes); in-place, so last
+        salt = len(s)
+        for what in surgery(nl, salt):
+            res.label('synthetic:' + what)
+        for mode in ('tok', 'falsy'):
+            e2 = check_tree(s, nl, res, dict(case, surgery=salt), mode=mode)
+            for cb in set(w[0] for w in e2.log):
+                res.label('cb:' + cb)
 
 
 def run_shard(shard, res):
@@ -260,6 +331,13 @@ def run_shard(shard, res):
             s = ''.join(toks)
             for tol in (False, True):
                 do_source(s, 'extra', tol, res, {'src': s, 'ctx': 'extra', 'tolerant': tol})
+        res.exhaustive = True
+    elif kind_ == 'esoup':
+        _, L, k = shard
+        for toks in soups.enum_tokens(ALPHA_EVERY, L, k, NSHARDS):
+            s = ''.join(toks)
+            for tol in (False, True):
+                do_source(s, 'every', tol, res, {'src': s, 'ctx': 'every', 'tolerant': tol})
         res.exhaustive = True
     elif kind_ == 'soup':
         _, L, k = shard
